@@ -46,3 +46,11 @@ func (r *ComDoc) VerifRootFiles() []int  { return append([]int(nil), r.rootFiles
 func (r *ComDoc) VerifRootStorage() int  { return r.rootStorage }
 func (r *ComDoc) VerifMsatList() []SecID { return append([]SecID(nil), r.msatList...) }
 func (r *ComDoc) VerifChanged() bool     { return r.changed }
+
+// VerifAllocSectorTables runs allocSectorTables on the given (synthetic) tables.
+func (r *ComDoc) VerifAllocSectorTables(msat, msatList []SecID) ([]SecID, []SecID, []SecID) {
+	r.MSAT = msat
+	r.msatList = msatList
+	r.allocSectorTables()
+	return r.SAT, r.MSAT, r.msatList
+}
